@@ -166,7 +166,7 @@ def worker(cfg, tier='quick'):
     return col.result()
 
 
-FILE_KINDS = ['dir-json', 'dir-gz', 'zip', 'merged-json', 'dir-two-files']
+FILE_KINDS = ['dir-json', 'dir-gz', 'zip', 'merged-json', 'dir-two-files', 'merged']
 
 
 def write_layout(root, kinds, order, records):
@@ -195,6 +195,22 @@ def write_layout(root, kinds, order, records):
             with gzip.open(os.path.join(d, 'b.json.gz'), 'wb') as g:
                 g.write(json.dumps(recs[half:]).encode())
             paths.append(os.path.join(root, f'p{i}'))
+        elif kind == 'merged':
+            # the output of `panqec merge-results` over a single-record file (a top-level JSON object, as
+            # DirectSimulation.get_results_to_save() gives) and a list-formatted file
+            import contextlib
+            import io
+            import panqec.cli as cli
+            d = os.path.join(root, f'src{i}')
+            os.makedirs(d)
+            f1, f2 = os.path.join(d, 'one.json'), os.path.join(d, 'rest.json.gz')
+            json.dump(recs[0], open(f1, 'w'))
+            with gzip.open(f2, 'wb') as g:
+                g.write(json.dumps(recs[1:]).encode())
+            out = os.path.join(root, f'p{i}.merged.json.gz')
+            with contextlib.redirect_stdout(io.StringIO()):
+                cli.merge_results.callback((f1, f2), out)
+            paths.append(out)
         elif kind == 'zip':
             z = os.path.join(root, f'p{i}.zip')
             with zipfile.ZipFile(z, 'w') as zf:
